@@ -1726,4 +1726,988 @@ theorem digitsVal_eq_ofDigits (b : Nat) (ds : List Char) :
   unfold digitsVal
   rw [digitsVal_acc]; simp
 
+/-- `r` with the text `ws` inserted at position `j` (at the end when `j` is beyond it) -/
+def ins (j : Nat) (ws r : List Char) : List Char := r.take j ++ (ws ++ r.drop j)
+
+theorem ins_nil (j : Nat) (r : List Char) : ins j [] r = r := by simp [ins]
+
+theorem ins_zero (ws r : List Char) : ins 0 ws r = ws ++ r := by simp [ins]
+
+theorem ins_cons_succ (j : Nat) (ws : List Char) (c : Char) (r : List Char) :
+    ins (j + 1) ws (c :: r) = c :: ins j ws r := by simp [ins]
+
+theorem ins_of_nil (j : Nat) (ws : List Char) : ins j ws [] = ws := by simp [ins]
+
+theorem ins_append_ge {a : List Char} (b ws : List Char) {j : Nat} (h : a.length ≤ j) :
+    ins j ws (a ++ b) = a ++ ins (j - a.length) ws b := by
+  induction a generalizing j with
+  | nil => simp
+  | cons c a ih =>
+    cases j with
+    | zero => simp at h
+    | succ j =>
+      simp only [List.cons_append, ins_cons_succ, List.length_cons]
+      rw [ih (by simpa using h)]
+      simp
+
+theorem drop_ins_ge (ws : List Char) : ∀ (k j : Nat) (r : List Char), k ≤ j → k ≤ r.length →
+    (ins j ws r).drop k = ins (j - k) ws (r.drop k)
+  | 0, j, r, _, _ => by simp
+  | k + 1, 0, r, h, _ => by omega
+  | k + 1, j + 1, [], _, h => by simp at h
+  | k + 1, j + 1, c :: r, h, h2 => by
+    rw [ins_cons_succ]
+    simp only [List.drop_succ_cons]
+    rw [drop_ins_ge ws k j r (by omega) (by simpa using h2)]
+    simp
+
+theorem getElem?_ins_lt {p j : Nat} (ws r : List Char) (h1 : p < j) (h2 : p < r.length) :
+    (ins j ws r)[p]? = r[p]? := by
+  unfold ins
+  rw [List.getElem?_append_left (by simp; omega)]
+  rw [List.getElem?_take_of_lt h1]
+
+theorem head?_ins {j : Nat} (ws : List Char) {r : List Char} (h1 : 0 < j) (h2 : r ≠ []) :
+    (ins j ws r).head? = r.head? := by
+  cases r with
+  | nil => exact absurd rfl h2
+  | cons c r =>
+    cases j with
+    | zero => omega
+    | succ j => simp [ins_cons_succ]
+
+theorem noStart_ins {p : Char → Bool} {ws : List Char} (hws : ∀ c ∈ ws, p c = false) (hne : ws ≠ [])
+    {r : List Char} (h : NoStart p r) (j : Nat) : NoStart p (ins j ws r) := by
+  cases r with
+  | nil =>
+    rw [ins_of_nil]
+    cases ws with
+    | nil => exact absurd rfl hne
+    | cons w ws => rw [noStart_cons]; exact hws w (by simp)
+  | cons c r =>
+    cases j with
+    | zero =>
+      rw [ins_zero]
+      cases ws with
+      | nil => exact absurd rfl hne
+      | cons w ws => rw [List.cons_append, noStart_cons]; exact hws w (by simp)
+    | succ j => rw [ins_cons_succ, noStart_cons]; exact noStart_cons.1 h
+
+/-- a prefix of the text with whitespace inserted that itself contains no whitespace is a prefix of the original -/
+theorem prefix_ins {a ws r : List Char} {j : Nat} (hws : ∀ c ∈ ws, isSpace c = true) (hne : ws ≠ [])
+    (ha : ∀ c ∈ a, isSpace c = false) (h : a <+: ins j ws r) : a <+: r := by
+  induction a generalizing j r with
+  | nil => exact List.nil_prefix
+  | cons c a ih =>
+    cases r with
+    | nil =>
+      rw [ins_of_nil] at h
+      cases ws with
+      | nil => exact absurd rfl hne
+      | cons w ws =>
+        have := List.cons_prefix_cons.1 h
+        have h1 := ha c (by simp)
+        rw [this.1, hws w (by simp)] at h1; simp at h1
+    | cons d r =>
+      cases j with
+      | zero =>
+        rw [ins_zero] at h
+        cases ws with
+        | nil => exact absurd rfl hne
+        | cons w ws =>
+          have := List.cons_prefix_cons.1 h
+          have h1 := ha c (by simp)
+          rw [this.1, hws w (by simp)] at h1; simp at h1
+      | succ j =>
+        rw [ins_cons_succ] at h
+        have := List.cons_prefix_cons.1 h
+        rw [this.1]
+        exact List.cons_prefix_cons.2 ⟨rfl, ih (fun x hx => ha x (by simp [hx])) this.2⟩
+
+theorem prefix_ins_of_le {a r : List Char} (ws : List Char) {j : Nat} (h : a <+: r) (hl : a.length ≤ j) :
+    a <+: ins j ws r := by
+  obtain ⟨b, rfl⟩ := h
+  rw [ins_append_ge b ws hl]
+  exact List.prefix_append _ _
+
+theorem tw_ins {p : Char → Bool} {ws : List Char} (hws : ∀ c ∈ ws, p c = false) (hne : ws ≠ [])
+    (r : List Char) {j : Nat} (h : (r.takeWhile p).length ≤ j) :
+    (ins j ws r).takeWhile p = r.takeWhile p
+      ∧ (ins j ws r).dropWhile p = ins (j - (r.takeWhile p).length) ws (r.dropWhile p) := by
+  have hs := (List.takeWhile_append_dropWhile (p := p) (l := r)).symm
+  have : ins j ws r = r.takeWhile p ++ ins (j - (r.takeWhile p).length) ws (r.dropWhile p) := by
+    conv => lhs; rw [hs]
+    exact ins_append_ge _ ws h
+  rw [this]
+  exact tw_append_stop (tw_all p r) (noStart_ins hws hne (dw_noStart p r) _)
+
+theorem unescaped_congr {b b' : List Char} {k : Nat} (h : ∀ p : Nat, p ≤ k → b'[p]? = b[p]?) :
+    Unescaped b' k ↔ Unescaped b k := by
+  cases k with
+  | zero => simp [Unescaped, h 0 (by omega)]
+  | succ k => simp [Unescaped, h (k + 1) (by omega), h k (by omega)]
+
+theorem take_ins_le {k j : Nat} (ws r : List Char) (h1 : k ≤ j) (h2 : k ≤ r.length) :
+    (ins j ws r).take k = r.take k := by
+  unfold ins
+  rw [List.take_append_of_le_length (by simp; omega), List.take_take]
+  congr 1; omega
+
+theorem scanString_ins {ws b : List Char} {k j : Nat} (h : scanString b = some k) (hj : k < j) :
+    scanString (ins j ws b) = some k := by
+  have ⟨hu, hmin⟩ := scanString_some b k h
+  have hlt := unescaped_lt hu
+  have hcongr : ∀ q, q ≤ k → (Unescaped (ins j ws b) q ↔ Unescaped b q) := by
+    intro q hq
+    apply unescaped_congr
+    intro p hp
+    exact getElem?_ins_lt ws b (by omega) (by omega)
+  cases hk : scanString (ins j ws b) with
+  | none => exact absurd ((hcongr k (by omega)).2 hu) (scanString_none _ hk k)
+  | some k' =>
+    have ⟨hu', hmin'⟩ := scanString_some _ k' hk
+    rcases Nat.lt_trichotomy k' k with hl | hl | hl
+    · exact absurd ((hcongr k' (by omega)).1 hu') (hmin k' hl)
+    · rw [hl]
+    · exact absurd ((hcongr k (by omega)).2 hu) (hmin' k hl)
+
+theorem scanInstant_ins {ws b : List Char} {k j : Nat} (h : scanInstant b = some k) (hj : k < j) :
+    scanInstant (ins j ws b) = some k := by
+  have ⟨hu, hmin⟩ := scanInstant_some b k h
+  have hlt := getElem?_some_lt hu
+  have hcongr : ∀ q : Nat, q ≤ k → (ins j ws b)[q]? = b[q]? :=
+    fun q hq => getElem?_ins_lt ws b (by omega) (by omega)
+  cases hk : scanInstant (ins j ws b) with
+  | none => exact absurd (by rw [hcongr k (by omega)]; exact hu) (scanInstant_none _ hk k)
+  | some k' =>
+    have ⟨hu', hmin'⟩ := scanInstant_some _ k' hk
+    rcases Nat.lt_trichotomy k' k with hl | hl | hl
+    · exact absurd (by rw [← hcongr k' (by omega)]; exact hu') (hmin k' hl)
+    · rw [hl]
+    · exact absurd (by rw [hcongr k (by omega)]; exact hu) (hmin' k hl)
+
+theorem readString_ins {ws r : List Char} {t : Token} {j : Nat} (hr : 1 ≤ r.length)
+    (h : readString 0 r = .ok (some t)) (hj : t.e ≤ j) : readString 0 (ins j ws r) = .ok (some t) := by
+  unfold readString at h ⊢
+  simp only [Nat.zero_add] at h ⊢
+  cases hk : scanString (r.drop 1) with
+  | none => rw [hk] at h; simp at h
+  | some k =>
+    rw [hk] at h
+    simp only [Except.ok.injEq, Option.some.injEq] at h
+    subst h
+    simp only at hj
+    have hlt := unescaped_lt (scanString_some _ k hk).1
+    rw [drop_ins_ge ws 1 j r (by omega) hr, scanString_ins hk (by omega)]
+    simp only
+    rw [take_ins_le ws _ (by omega) (by omega)]
+
+theorem readInstant_ins {ws r : List Char} {t : Token} {j : Nat} (hr : 1 ≤ r.length)
+    (h : readInstant 0 r = .ok (some t)) (hj : t.e ≤ j) : readInstant 0 (ins j ws r) = .ok (some t) := by
+  unfold readInstant at h ⊢
+  simp only [Nat.zero_add] at h ⊢
+  cases hk : scanInstant (r.drop 1) with
+  | none => rw [hk] at h; simp at h
+  | some k =>
+    rw [hk] at h
+    simp only [Except.ok.injEq, Option.some.injEq] at h
+    subst h
+    simp only at hj
+    have hlt := getElem?_some_lt (scanInstant_some _ k hk).1
+    rw [drop_ins_ge ws 1 j r (by omega) hr, scanInstant_ins hk (by omega)]
+    simp only
+    rw [take_ins_le ws _ (by omega) (by omega)]
+
+theorem digit_not_space {c : Char} (h : isDigit c = true) : isSpace c = false := by
+  cases hs : isSpace c with
+  | false => rfl
+  | true => rw [(space_props hs).2.2.2.1] at h; simp at h
+
+theorem hex_not_space {c : Char} (h : isHex c = true) : isSpace c = false := by
+  cases hs : isSpace c with
+  | false => rfl
+  | true => rw [(space_props hs).2.2.2.2.2.2.1] at h; simp at h
+
+theorem headAny_iff_noStart {p : Char → Bool} {x : List Char} : x.head?.any p = false ↔ NoStart p x := by
+  cases x with
+  | nil => simp [NoStart]
+  | cons c x => simp [noStart_cons]
+
+theorem expStarts_e (y : List Char) :
+    expStarts ('e' :: y) =
+      match signTail y with
+      | some (_, r2) => r2.head?.any isDigit
+      | none => y.head?.any isDigit := by
+  simp only [expStarts, afterChar, beq_self_eq_true, if_true] <;> rfl
+
+theorem expStarts_space {w : Char} (y : List Char) (hw : isSpace w = true) : expStarts (w :: y) = false := by
+  have := (space_props hw).2.2.2.2.2.2.2.2.1
+  simp [expStarts, afterChar, this]
+
+theorem expStarts_e_space {w : Char} (y : List Char) (hw : isSpace w = true) : expStarts ('e' :: w :: y) = false := by
+  have hp := space_props hw
+  rw [expStarts_e]
+  have : signTail (w :: y) = none := by
+    rw [signTail_none]; intro c hc; simp at hc; subst hc; exact ⟨hp.2.2.2.2.2.2.2.2.2.1, hp.2.2.2.2.2.2.2.2.2.2.1⟩
+  rw [this]; simp [hp.2.2.2.1]
+
+theorem expStarts_ins {ws x : List Char} (hws : ∀ c ∈ ws, isSpace c = true) (hne : ws ≠ []) (j : Nat)
+    (h : expStarts x = false) : expStarts (ins j ws x) = false := by
+  obtain ⟨w, ws', rfl⟩ : ∃ w ws', ws = w :: ws' := by
+    cases ws with
+    | nil => exact absurd rfl hne
+    | cons w ws' => exact ⟨w, ws', rfl⟩
+  have hw := hws w (by simp)
+  have hnd : ∀ c ∈ w :: ws', isDigit c = false := fun c hc => (space_props (hws c hc)).2.2.2.1
+  cases x with
+  | nil => rw [ins_of_nil]; exact expStarts_space _ hw
+  | cons c x1 =>
+    cases j with
+    | zero => rw [ins_zero]; exact expStarts_space _ hw
+    | succ j1 =>
+      rw [ins_cons_succ]
+      by_cases hc : c = 'e'
+      · subst hc
+        rw [expStarts_e] at h
+        cases x1 with
+        | nil => rw [ins_of_nil]; exact expStarts_e_space _ hw
+        | cons s x2 =>
+          cases j1 with
+          | zero => rw [ins_zero]; exact expStarts_e_space _ hw
+          | succ j2 =>
+            rw [ins_cons_succ, expStarts_e]
+            by_cases hs : (s == '-' || s == '+') = true
+            · simp only [signTail, hs, if_true] at h ⊢
+              rw [headAny_iff_noStart] at h ⊢
+              exact noStart_ins hnd (by simp) h j2
+            · simp only [signTail, hs, if_false] at h ⊢
+              simpa using h
+      · have : (c == 'e') = false := by simpa using hc
+        simp [expStarts, afterChar, this]
+
+theorem space_not_digit {ws : List Char} (hws : ∀ c ∈ ws, isSpace c = true) : ∀ c ∈ ws, isDigit c = false :=
+  fun c hc => (space_props (hws c hc)).2.2.2.1
+
+theorem matchExp_ins {ws x : List Char} (hws : ∀ c ∈ ws, isSpace c = true) (hne : ws ≠ []) {j : Nat}
+    (hj : expLen (matchExp x) ≤ j) : matchExp (ins j ws x) = matchExp x := by
+  cases h : matchExp x with
+  | none =>
+    rw [matchExp_none] at h ⊢
+    exact expStarts_ins hws hne j h
+  | some p =>
+    obtain ⟨sg, es⟩ := p
+    obtain ⟨rest2, hs⟩ := matchExp_inv h
+    rw [h] at hj
+    apply matchExp_comp (rest := ins (j - (1 + sg.toList.length + es.length)) ws rest2)
+    refine ⟨?_, hs.sign, hs.dsd, hs.ne, noStart_ins (space_not_digit hws) hne hs.stop _⟩
+    have hl : ('e' :: (sg.toList ++ es)).length ≤ j := by
+      rcases hs.sign with rfl | rfl | rfl <;> simp [expLen] at hj ⊢ <;> omega
+    have := ins_append_ge rest2 ws hl
+    rw [hs.eq]
+    simp only [List.cons_append, List.append_assoc] at this
+    rw [this]
+    simp
+    congr 2
+    omega
+
+theorem noStart_eq_iff {x : List Char} {d : Char} : NoStart (fun c => c == d) x ↔ x.head? ≠ some d := by
+  cases x with
+  | nil => simp [NoStart]
+  | cons c x => simp [noStart_cons]
+
+theorem space_ne_dot {ws : List Char} (hws : ∀ c ∈ ws, isSpace c = true) : ∀ c ∈ ws, (c == '.') = false :=
+  fun c hc => by simpa using (space_props (hws c hc)).2.2.1
+
+theorem getElem?_ins_ne_dot {ws r : List Char} (hws : ∀ c ∈ ws, isSpace c = true) (hne : ws ≠ []) {p j : Nat}
+    (h1 : p ≤ j) (h2 : p ≤ r.length) (h : r[p]? ≠ some '.') : (ins j ws r)[p]? ≠ some '.' := by
+  rw [← List.head?_drop, drop_ins_ge ws p j r h1 h2, ← noStart_eq_iff]
+  apply noStart_ins (space_ne_dot hws) hne
+  rw [noStart_eq_iff, List.head?_drop]; exact h
+
+theorem matchBased_none_ins {ws r : List Char} (hws : ∀ c ∈ ws, isSpace c = true) (hne : ws ≠ []) (j : Nat)
+    (h : matchBased r = none) : matchBased (ins j ws r) = none := by
+  cases hb : matchBased (ins j ws r) with
+  | none => rfl
+  | some p =>
+    obtain ⟨m, hs⟩ := p
+    obtain ⟨rest, hspec⟩ := matchBased_inv hb
+    obtain ⟨hd, tl, rfl⟩ : ∃ hd tl, hs = hd :: tl := by
+      cases hs with
+      | nil => exact absurd rfl hspec.ne
+      | cons hd tl => exact ⟨hd, tl, rfl⟩
+    have hpre : ['0', m, hd] <+: ins j ws r := by rw [hspec.eq]; simp
+    have hfree : ∀ c ∈ ['0', m, hd], isSpace c = false := by
+      intro c hc
+      simp at hc
+      rcases hc with rfl | rfl | rfl
+      · decide
+      · rcases hspec.letter with rfl | rfl | rfl | rfl <;> decide
+      · exact hex_not_space (hspec.hex _ (by simp))
+    obtain ⟨tail, rfl⟩ := prefix_ins hws hne hfree hpre
+    rw [show ['0', m, hd] ++ tail = '0' :: m :: (hd :: tail) from rfl, matchBased.eq_1] at h
+    have hm : (m == 'x' || m == 'o' || m == 'b' || m == 'd') = true := by
+      rcases hspec.letter with rfl | rfl | rfl | rfl <;> decide
+    have hhd := hspec.hex hd (by simp)
+    simp [hm, List.takeWhile_cons, hhd] at h
+
+theorem space_not_hex {ws : List Char} (hws : ∀ c ∈ ws, isSpace c = true) : ∀ c ∈ ws, isHex c = false :=
+  fun c hc => (space_props (hws c hc)).2.2.2.2.2.2.1
+
+theorem numMatch_len_eq (m : NumMatch) : m.len = mantLen (m.ip, m.dot, m.fp) + expLen m.exp := rfl
+
+theorem readNumToken_ins {ws r : List Char} {t : Token} {j : Nat} (hws : ∀ c ∈ ws, isSpace c = true)
+    (hne : ws ≠ []) (h : readNumToken 0 r = .ok (some t)) (hj : t.e ≤ j)
+    (hrange : j = t.e + 1 → ¬ (r[t.e]? = some '.' ∧ r[t.e + 1]? = some '.')) :
+    readNumToken 0 (ins j ws r) = .ok (some t) := by
+  have h0 := h
+  unfold readNumToken at h
+  simp only [List.drop_zero, Nat.zero_add] at h
+  cases hb : matchBased r with
+  | some p =>
+    obtain ⟨m, hs⟩ := p
+    obtain ⟨rest, hspec⟩ := matchBased_inv hb
+    simp only [hb] at h
+    cases hv : basedValue m hs with
+    | none => simp [hv] at h
+    | some v =>
+      simp only [hv, Except.ok.injEq, Option.some.injEq] at h
+      subst h
+      simp only at hj
+      have heq : ins j ws r = '0' :: m :: (hs ++ ins (j - (2 + hs.length)) ws rest) := by
+        rw [hspec.eq]
+        have := ins_append_ge (a := '0' :: m :: hs) rest ws (j := j) (by simp; omega)
+        simp only [List.cons_append] at this
+        rw [this]
+        simp
+        congr 1; omega
+      have hb' := matchBased_comp (r := ins j ws r)
+        ⟨heq, hspec.letter, hspec.hex, hspec.ne, noStart_ins (space_not_hex hws) hne hspec.stop _⟩
+      unfold readNumToken
+      simp only [List.drop_zero, Nat.zero_add, hb', hv]
+  | none =>
+    simp only [hb] at h
+    have hb' := matchBased_none_ins hws hne j hb
+    cases hn : numRegex r with
+    | none => simp [hn] at h
+    | some m =>
+      simp only [hn] at h
+      obtain ⟨rest, hs, he⟩ := numRegex_some_iff.1 hn
+      have ⟨_, hlen⟩ := numRegex_len hn
+      by_cases hrc : rangeCase m r[m.len]? = true
+      · -- the `1..` case
+        simp only [hrc, if_true, Except.ok.injEq, Option.some.injEq] at h
+        subst h
+        simp only at hj hrange
+        unfold rangeCase at hrc
+        simp only [Bool.and_eq_true, beq_iff_eq] at hrc
+        obtain ⟨⟨⟨hexp, hdot⟩, hfp⟩, hnext⟩ := hrc
+        have hexp' : m.exp = none := by simpa using hexp
+        have hfp' : m.fp = [] := by simpa using hfp
+        have hip : m.ip ≠ [] := by
+          rcases hs.withdot hdot with h | h
+          · exact h
+          · exact absurd hfp' h
+        have hmlen : m.len = m.ip.length + 1 := by
+          rw [numMatch_len_eq, hexp']; simp [mantLen, hdot, hfp', expLen]
+        have hreq : r = m.ip ++ ('.' :: rest) := by
+          have := hs.eq; rw [hdot, hfp'] at this; simpa using this
+        have hdot1 : r[m.ip.length]? = some '.' := by
+          rw [hreq, List.getElem?_append_right (by omega)]; simp
+        rw [hmlen] at hj hrange hnext
+        have hjne : j ≠ m.ip.length + 1 := by
+          intro hc
+          exact hrange (by omega) ⟨by simpa using hdot1, by simpa using hnext⟩
+        rcases Nat.lt_or_ge j (m.ip.length + 1) with hlt | hge
+        · -- whitespace between the digits and the points: the digits alone are an integer
+          have hjeq : j = m.ip.length := by omega
+          obtain ⟨w, ws', rfl⟩ : ∃ w ws', ws = w :: ws' := by
+            cases ws with
+            | nil => exact absurd rfl hne
+            | cons w ws' => exact ⟨w, ws', rfl⟩
+          have hw := hws w (by simp)
+          have hins : ins j (w :: ws') r = m.ip ++ (w :: (ws' ++ '.' :: rest)) := by
+            rw [hreq, ins_append_ge _ _ (by omega), hjeq]; simp [ins_zero]
+          let m' : NumMatch := ⟨m.ip, false, [], none⟩
+          have hn' : numRegex (ins j (w :: ws') r) = some m' := by
+            rw [numRegex_some_iff]
+            refine ⟨w :: (ws' ++ '.' :: rest), ⟨by simp [m', hins], hs.ipd, by simp [m'], ?_, ?_, by simp [m']⟩, ?_⟩
+            · rw [noStart_cons]; exact (space_props hw).2.2.2.1
+            · intro _; refine ⟨hip, rfl, ?_⟩; simp; exact (space_props hw).2.2.1
+            · simp only [m']; symm; rw [matchExp_none]; exact expStarts_space _ hw
+          rw [readNumToken_regular hb' hn' (by simp [rangeCase, m'])]
+          have hl' : m'.len = m.len - 1 := by rw [hmlen]; simp [m', NumMatch.len, mantLen, expLen]
+          rw [hl']; simp [numValue, m']
+        · -- whitespace after the points: same match, same special case
+          have hgt : m.ip.length + 1 < j := by omega
+          have hml : mantLen (m.ip, m.dot, m.fp) = m.ip.length + 1 := by simp [mantLen, hdot, hfp']
+          have hins : ins j ws r = m.ip ++ ((if m.dot then ['.'] else []) ++ (m.fp ++ ins (j - (m.ip.length + 1)) ws rest)) := by
+            rw [hdot, hfp']
+            have := ins_append_ge (a := m.ip ++ ['.']) rest ws (j := j) (by simp; omega)
+            rw [hreq]
+            simp only [List.append_assoc, List.singleton_append, List.length_append, List.length_cons,
+              List.length_nil] at this
+            rw [this]; simp
+          have hn' : numRegex (ins j ws r) = some m := by
+            rw [numRegex_some_iff]
+            refine ⟨_, ⟨hins, hs.ipd, hs.fpd, noStart_ins (space_not_digit hws) hne hs.stop _, ?_, hs.withdot⟩, ?_⟩
+            · intro hc; rw [hdot] at hc; simp at hc
+            · rw [matchExp_ins hws hne (by rw [← he, hexp']; simp [expLen])]; exact he
+          have hlt2 : m.ip.length + 1 < r.length := getElem?_some_lt hnext
+          have hnext' : (ins j ws r)[m.len]? = some '.' := by
+            rw [hmlen, getElem?_ins_lt ws r hgt hlt2]; exact hnext
+          rw [readNumToken_range hb' hn' (by rw [hnext']; simp [rangeCase, hexp', hdot, hfp'])]
+      · -- regular numeral
+        simp only [hrc, Bool.false_eq_true, if_false] at h
+        cases hv : numValue m with
+        | none => simp [hv] at h
+        | some v =>
+          simp only [hv, Except.ok.injEq, Option.some.injEq] at h
+          subst h
+          simp only at hj
+          have hml : mantLen (m.ip, m.dot, m.fp) + expLen m.exp ≤ j := by rw [← numMatch_len_eq]; exact hj
+          have hins : ins j ws r = m.ip ++ ((if m.dot then ['.'] else []) ++
+              (m.fp ++ ins (j - mantLen (m.ip, m.dot, m.fp)) ws rest)) := by
+            have hal : (m.ip ++ ((if m.dot then ['.'] else []) ++ m.fp)).length = mantLen (m.ip, m.dot, m.fp) := by
+              cases hd : m.dot <;> simp [mantLen, hd] <;> omega
+            have := ins_append_ge (a := m.ip ++ ((if m.dot then ['.'] else []) ++ m.fp)) rest ws (j := j)
+              (by rw [hal]; omega)
+            rw [hal] at this
+            conv => lhs; rw [hs.eq]
+            simp only [List.append_assoc] at this ⊢
+            exact this
+          have hn' : numRegex (ins j ws r) = some m := by
+            rw [numRegex_some_iff]
+            refine ⟨_, ⟨hins, hs.ipd, hs.fpd, noStart_ins (space_not_digit hws) hne hs.stop _, ?_, hs.withdot⟩, ?_⟩
+            · intro hd
+              obtain ⟨h1, h2, h3⟩ := hs.nodot hd
+              refine ⟨h1, h2, ?_⟩
+              rw [← noStart_eq_iff] at h3 ⊢
+              exact noStart_ins (space_ne_dot hws) hne h3 _
+            · rw [matchExp_ins hws hne (by rw [← he]; omega)]; exact he
+          have hrc' : rangeCase m (ins j ws r)[m.len]? = false := by
+            have hrcf : rangeCase m r[m.len]? = false := by simpa using hrc
+            unfold rangeCase at hrcf ⊢
+            by_cases hpre : (m.exp.isNone && m.dot && m.fp.isEmpty) = true
+            · rw [hpre] at hrcf ⊢
+              simp only [Bool.true_and, beq_eq_false_iff_ne] at hrcf ⊢
+              exact getElem?_ins_ne_dot hws hne hj hlen hrcf
+            · have : (m.exp.isNone && m.dot && m.fp.isEmpty) = false := by simpa using hpre
+              rw [this]; rfl
+          rw [readNumToken_regular hb' hn' hrc', hv]
+
+theorem scanConst_intro {alpha : List String} {i : Nat} {s : List Char} {pre : List String} {x : String}
+    {post : List String} (hpre : ∀ u ∈ pre, constAccepts alpha i s u = false) (hx : constAccepts alpha i s x = true) :
+    scanConst alpha i s (pre ++ x :: post) = some ⟨.const x, i, i + x.toList.length, .none⟩ := by
+  induction pre with
+  | nil => simp [scanConst, hx]
+  | cons a pre ih =>
+    have ha := hpre a (by simp)
+    simp only [List.cons_append, scanConst, ha, Bool.false_eq_true, if_false]
+    exact ih (fun u hu => hpre u (by simp [hu]))
+
+theorem alphaAt_eq_headAny (r : List Char) (p : Nat) : alphaAt r p = (r.drop p).head?.any isAlpha := by
+  unfold alphaAt
+  rw [List.head?_drop]
+  cases r[p]? <;> rfl
+
+theorem numericAt_eq_headAny (r : List Char) (p : Nat) : numericAt r p = (r.drop p).head?.any isNumeric := by
+  unfold numericAt
+  rw [List.head?_drop]
+  cases r[p]? <;> rfl
+
+theorem space_not_alpha {ws : List Char} (hws : ∀ c ∈ ws, isSpace c = true) : ∀ c ∈ ws, isAlpha c = false :=
+  fun c hc => (space_props (hws c hc)).2.2.2.2.2.1
+
+theorem alphaAt_ins_false {ws r : List Char} (hws : ∀ c ∈ ws, isSpace c = true) (hne : ws ≠ []) {p j : Nat}
+    (h1 : p ≤ j) (h2 : p ≤ r.length) (h : alphaAt r p = false) : alphaAt (ins j ws r) p = false := by
+  rw [alphaAt_eq_headAny] at h ⊢
+  rw [drop_ins_ge ws p j r h1 h2, headAny_iff_noStart]
+  exact noStart_ins (space_not_alpha hws) hne (headAny_iff_noStart.1 h) _
+
+theorem numericAt_ins_false {ws r : List Char} (hws : ∀ c ∈ ws, isSpace c = true) (hne : ws ≠ []) {p j : Nat}
+    (h1 : p ≤ j) (h2 : p ≤ r.length) (h : numericAt r p = false) : numericAt (ins j ws r) p = false := by
+  rw [numericAt_eq_headAny] at h ⊢
+  rw [drop_ins_ge ws p j r h1 h2, headAny_iff_noStart]
+  exact noStart_ins (p := isNumeric) (fun c hc => by simpa [isNumeric] using space_not_digit hws c hc) hne
+    (headAny_iff_noStart.1 h) _
+
+theorem alphaAt_true_lt {r : List Char} {p : Nat} (h : alphaAt r p = true) : p < r.length := by
+  unfold alphaAt at h
+  cases hp : r[p]? with
+  | none => simp [hp] at h
+  | some c => exact getElem?_some_lt hp
+
+theorem alphaAt_ins_lt {r : List Char} (ws : List Char) {p j : Nat} (h1 : p < j) (h : alphaAt r p = true) :
+    alphaAt (ins j ws r) p = true := by
+  have := alphaAt_true_lt h
+  unfold alphaAt at h ⊢
+  rw [getElem?_ins_lt ws r h1 this]; exact h
+
+theorem constAccepts_iff {alpha : List String} {r : List Char} {u : String} :
+    constAccepts alpha 0 r u = true ↔
+      u.toList <+: r ∧ (alpha.contains u = true → alphaAt r u.toList.length = false) := by
+  unfold constAccepts
+  simp only [List.drop_zero, Nat.zero_add, Bool.and_eq_true, Bool.or_eq_true, Bool.not_eq_true',
+    List.isPrefixOf_iff_prefix]
+  constructor
+  · intro ⟨h1, h2⟩
+    refine ⟨h1, fun hc => ?_⟩
+    rcases h2 with h2 | h2
+    · rw [hc] at h2; simp at h2
+    · exact h2
+  · intro ⟨h1, h2⟩
+    refine ⟨h1, ?_⟩
+    cases hc : alpha.contains u with
+    | false => exact Or.inl rfl
+    | true => exact Or.inr (h2 hc)
+
+/-- an entry rejected although it is a prefix is an alphabetic keyword followed by a letter -/
+theorem rejected_prefix {alpha : List String} {r : List Char} {u : String}
+    (h : constAccepts alpha 0 r u = false) (hp : u.toList <+: r) :
+    alpha.contains u = true ∧ alphaAt r u.toList.length = true := by
+  cases hc : alpha.contains u with
+  | false =>
+    have : constAccepts alpha 0 r u = true := constAccepts_iff.2 ⟨hp, fun h' => by rw [hc] at h'; simp at h'⟩
+    rw [this] at h; simp at h
+  | true =>
+    refine ⟨rfl, ?_⟩
+    cases ha : alphaAt r u.toList.length with
+    | true => rfl
+    | false =>
+      have : constAccepts alpha 0 r u = true := constAccepts_iff.2 ⟨hp, fun _ => ha⟩
+      rw [this] at h; simp at h
+
+theorem const_ws_free {u : String} (hu : u ∈ Gen.Tokens.constTokens) : ∀ c ∈ u.toList, isSpace c = false :=
+  constTokens_noSpace u hu
+
+theorem scanConst_ins_some {ws r : List Char} {t : Token} {j : Nat} (hws : ∀ c ∈ ws, isSpace c = true)
+    (hne : ws ≠ []) (h : scanConst Gen.Tokens.alphaTokens 0 r Gen.Tokens.constTokens = some t) (hj : t.e ≤ j) :
+    scanConst Gen.Tokens.alphaTokens 0 (ins j ws r) Gen.Tokens.constTokens = some t := by
+  obtain ⟨pre, x, post, hts, hpre, hx, rfl⟩ := scanConst_first h
+  simp only [Nat.zero_add] at hj
+  have ⟨hxp, hxa⟩ := constAccepts_iff.1 hx
+  have hxmem : x ∈ Gen.Tokens.constTokens := by rw [hts]; simp
+  rw [hts]
+  apply scanConst_intro
+  · intro u hu
+    have humem : u ∈ Gen.Tokens.constTokens := by rw [hts]; simp [hu]
+    have hrej := hpre u hu
+    cases hacc : constAccepts Gen.Tokens.alphaTokens 0 (ins j ws r) u with
+    | false => rfl
+    | true =>
+      have ⟨hup', hua'⟩ := constAccepts_iff.1 hacc
+      have hup := prefix_ins hws hne (const_ws_free humem) hup'
+      have ⟨hualpha, hunext⟩ := rejected_prefix hrej hup
+      have hlt : u.toList.length < x.toList.length := by
+        rcases Nat.lt_or_ge u.toList.length x.toList.length with hl | hl
+        · exact hl
+        · rcases Nat.eq_or_lt_of_le hl with he | hl'
+          · have := string_eq_of_toList (prefix_eq_of_length hxp hup he)
+            subst this
+            rw [hx] at hrej; simp at hrej
+          · have hpp : properPrefix x u = true := by
+              unfold properPrefix
+              simp only [Bool.and_eq_true, decide_eq_true_eq]
+              exact ⟨List.isPrefixOf_iff_prefix.2 (prefix_of_prefix hxp hup (by omega)), hl'⟩
+            have := alphaTokens_noPrefix
+            simp only [List.all_eq_true] at this
+            have := this x hxmem u humem
+            simp [hpp] at this
+            exact absurd (by simpa using hualpha) this
+      have := alphaAt_ins_lt ws (j := j) (by omega) hunext
+      rw [hua' hualpha] at this; simp at this
+  · rw [constAccepts_iff]
+    refine ⟨prefix_ins_of_le ws hxp hj, fun hc => ?_⟩
+    exact alphaAt_ins_false hws hne hj hxp.length_le (hxa hc)
+
+theorem tw_length_ge {q : Char → Bool} {l : List Char} {n : Nat}
+    (h : ∀ p : Nat, p < n → ∃ c, l[p]? = some c ∧ q c = true) : n ≤ (l.takeWhile q).length := by
+  induction l generalizing n with
+  | nil =>
+    cases n with
+    | zero => simp
+    | succ n => obtain ⟨c, hc, _⟩ := h 0 (by omega); simp at hc
+  | cons d l ih =>
+    cases n with
+    | zero => simp
+    | succ n =>
+      obtain ⟨c, hc, hq⟩ := h 0 (by omega)
+      simp at hc; subst hc
+      rw [List.takeWhile_cons, hq]
+      simp only [if_true, List.length_cons]
+      have := ih (n := n) (fun p hp => by
+        obtain ⟨c, hc, hq⟩ := h (p + 1) (by omega)
+        exact ⟨c, by simpa using hc, hq⟩)
+      omega
+
+theorem scanConst_ins_none {ws r name : List Char} {j : Nat} (hws : ∀ c ∈ ws, isSpace c = true)
+    (hne : ws ≠ []) (h : scanConst Gen.Tokens.alphaTokens 0 r Gen.Tokens.constTokens = none)
+    (hv : matchVar r = some name) (hj : name.length ≤ j) :
+    scanConst Gen.Tokens.alphaTokens 0 (ins j ws r) Gen.Tokens.constTokens = none := by
+  rw [scanConst_none] at h ⊢
+  intro u humem
+  have hrej := h u humem
+  cases hacc : constAccepts Gen.Tokens.alphaTokens 0 (ins j ws r) u with
+  | false => rfl
+  | true =>
+    have ⟨hup', hua'⟩ := constAccepts_iff.1 hacc
+    have hup := prefix_ins hws hne (const_ws_free humem) hup'
+    have ⟨hualpha, hunext⟩ := rejected_prefix hrej hup
+    obtain ⟨c, tail, hr, _, rfl⟩ := matchVar_some hv
+    subst hr
+    have hualpha' : u ∈ Gen.Tokens.alphaTokens := by simpa using hualpha
+    have hchars := (alphaTokens_sub u hualpha').2
+    have hune := constTokens_nonempty u humem
+    -- every position 1 .. |u| of the text holds an identifier character
+    have hlen : u.toList.length ≤ (tail.takeWhile isVarChar).length := by
+      apply tw_length_ge
+      intro p hp
+      rcases Nat.lt_or_ge (p + 1) u.toList.length with hlt | hge
+      · obtain ⟨rest, hrest⟩ := hup
+        have hget : u.toList[p + 1]? = (c :: tail)[p + 1]? := by
+          rw [← hrest, List.getElem?_append_left hlt]
+        have hsome : ∃ d, u.toList[p + 1]? = some d := ⟨u.toList[p + 1], by simp [hlt]⟩
+        obtain ⟨d, hd⟩ := hsome
+        refine ⟨d, by rw [← hd, hget]; simp, isAlpha_varChar (hchars d (List.mem_of_getElem? hd))⟩
+      · have hpe : p + 1 = u.toList.length := by omega
+        unfold alphaAt at hunext
+        rw [← hpe] at hunext
+        cases hq : (c :: tail)[p + 1]? with
+        | none => simp [hq] at hunext
+        | some d =>
+          simp [hq] at hunext
+          exact ⟨d, by simpa using hq, isAlpha_varChar hunext⟩
+    simp only [List.length_cons] at hj
+    have := alphaAt_ins_lt ws (j := j) (by omega) hunext
+    rw [hua' hualpha] at this; simp at this
+
+theorem matchVar_ins {ws r name : List Char} {j : Nat} (hws : ∀ c ∈ ws, isSpace c = true) (hne : ws ≠ [])
+    (hv : matchVar r = some name) (hj : name.length ≤ j) : matchVar (ins j ws r) = some name := by
+  obtain ⟨c, tail, hr, hc, rfl⟩ := matchVar_some hv
+  subst hr
+  simp only [List.length_cons] at hj
+  cases j with
+  | zero => omega
+  | succ j =>
+    rw [ins_cons_succ]
+    simp only [matchVar, hc, if_true]
+    rw [(tw_ins (p := isVarChar) (fun w hw => (space_props (hws w hw)).2.2.2.2.2.2.2.1) hne tail (by omega)).1]
+
+/-- a numeral that starts with the point is at least two characters long -/
+theorem readNumToken_dot_len {r1 : List Char} {t : Token} (h : readNumToken 0 ('.' :: r1) = .ok (some t)) :
+    2 ≤ t.e := by
+  unfold readNumToken at h
+  simp only [List.drop_zero, Nat.zero_add] at h
+  have hb : matchBased ('.' :: r1) = none := matchBased.eq_2 _ (by intro m r h; simp at h)
+  simp only [hb] at h
+  cases hn : numRegex ('.' :: r1) with
+  | none => simp [hn] at h
+  | some m =>
+    simp only [hn] at h
+    obtain ⟨rest, hs, he⟩ := numRegex_some_iff.1 hn
+    have hip : m.ip = [] := by
+      cases hip : m.ip with
+      | nil => rfl
+      | cons d ds =>
+        have := hs.eq
+        rw [hip] at this
+        simp at this
+        have hd := hs.ipd d (by rw [hip]; simp)
+        rw [← this.1] at hd
+        exact absurd hd (by decide)
+    have hdot : m.dot = true := by
+      cases hd : m.dot with
+      | true => rfl
+      | false => exact absurd hip (hs.nodot hd).1
+    have hfp : m.fp ≠ [] := by
+      rcases hs.withdot hdot with h | h
+      · exact absurd hip h
+      · exact h
+    have hfl : 1 ≤ m.fp.length := by cases hf : m.fp; exact absurd hf hfp; simp
+    have hml : 2 ≤ m.len := by rw [numMatch_len_eq]; simp [mantLen, hdot]; omega
+    by_cases hrc : rangeCase m ('.' :: r1)[m.len]? = true
+    · unfold rangeCase at hrc
+      simp only [Bool.and_eq_true] at hrc
+      have : m.fp = [] := by simpa using hrc.1.2
+      exact absurd this hfp
+    · simp only [hrc, Bool.false_eq_true, if_false] at h
+      cases hv : numValue m with
+      | none => simp [hv] at h
+      | some v =>
+        simp only [hv, Except.ok.injEq, Option.some.injEq] at h
+        subst h; exact hml
+
+/-- **locality of `read_token`**: whitespace inserted at or after the end of the token read at the head of `r`
+    does not change that token — except between the two points of `d..`, which is inside the following `..`
+    token and excluded by `hrange`. -/
+theorem readToken_ins {ws r : List Char} {t : Token} {j : Nat} (hws : ∀ c ∈ ws, isSpace c = true)
+    (hne : ws ≠ []) (h : readToken 0 r = .ok (some t)) (hj : t.e ≤ j)
+    (hrange : j = t.e + 1 → ¬ (r[t.e]? = some '.' ∧ r[t.e + 1]? = some '.')) :
+    readToken 0 (ins j ws r) = .ok (some t) := by
+  have ⟨_, hpos, hle⟩ := readToken_span h
+  cases r with
+  | nil => simp [readToken] at h
+  | cons c r1 =>
+    cases j with
+    | zero => omega
+    | succ j1 =>
+      have hins : ins (j1 + 1) ws (c :: r1) = c :: ins j1 ws r1 := ins_cons_succ j1 ws c r1
+      unfold readToken at h ⊢
+      rw [hins]
+      simp only [List.getElem?_cons_zero, List.drop_zero, Nat.zero_add] at h ⊢
+      rw [← hins]
+      by_cases h1 : (c == '"') = true
+      · simp only [h1, if_true] at h ⊢
+        exact readString_ins (by simp) h hj
+      · have h1' : (c == '"') = false := by simpa using h1
+        simp only [h1', Bool.false_eq_true, if_false] at h ⊢
+        by_cases h2 : (c == '#') = true
+        · simp only [h2, if_true] at h ⊢
+          exact readInstant_ins (by simp) h hj
+        · have h2' : (c == '#') = false := by simpa using h2
+          simp only [h2', Bool.false_eq_true, if_false] at h ⊢
+          by_cases h3 : (isNumeric c || (c == '.' && numericAt (c :: r1) 1)) = true
+          · simp only [h3, if_true] at h
+            have h3' : (isNumeric c || (c == '.' && numericAt (ins (j1 + 1) ws (c :: r1)) 1)) = true := by
+              by_cases hn : isNumeric c = true
+              · simp [hn]
+              · simp only [hn, Bool.false_or, Bool.and_eq_true, beq_iff_eq] at h3
+                obtain ⟨rfl, hnum⟩ := h3
+                have h2e := readNumToken_dot_len h
+                have : numericAt (ins (j1 + 1) ws ('.' :: r1)) 1 = true := by
+                  unfold numericAt at hnum ⊢
+                  cases hq : ('.' :: r1)[1]? with
+                  | none => simp [hq] at hnum
+                  | some d =>
+                    rw [getElem?_ins_lt ws _ (by omega) (getElem?_some_lt hq), hq]
+                    simpa [hq] using hnum
+                simp [this]
+            simp only [h3', if_true]
+            exact readNumToken_ins hws hne h hj hrange
+          · have h3f : (isNumeric c || (c == '.' && numericAt (c :: r1) 1)) = false := by simpa using h3
+            simp only [h3f, Bool.false_eq_true, if_false] at h
+            have h3' : (isNumeric c || (c == '.' && numericAt (ins (j1 + 1) ws (c :: r1)) 1)) = false := by
+              simp only [Bool.or_eq_false_iff, Bool.and_eq_false_iff] at h3f
+              obtain ⟨hn, hd⟩ := h3f
+              simp only [hn, Bool.false_or]
+              rcases hd with hd | hd
+              · simp [hd]
+              · have := numericAt_ins_false hws hne (p := 1) (j := j1 + 1) (r := c :: r1) (by omega) (by simp) hd
+                simp [this]
+            simp only [h3', Bool.false_eq_true, if_false]
+            cases hsc : scanConst Gen.Tokens.alphaTokens 0 (c :: r1) Gen.Tokens.constTokens with
+            | some t' =>
+              simp only [hsc, Except.ok.injEq, Option.some.injEq] at h
+              subst h
+              rw [scanConst_ins_some hws hne hsc hj]
+            | none =>
+              simp only [hsc] at h
+              cases hv : matchVar (c :: r1) with
+              | none => simp [hv] at h
+              | some name =>
+                simp only [hv, Except.ok.injEq, Option.some.injEq] at h
+                subst h
+                simp only at hj
+                rw [scanConst_ins_none hws hne hsc hv hj, matchVar_ins hws hne hv hj]
+
+/-- position `j` is not strictly inside any of the tokens -/
+def NotInside (toks : List Token) (j : Nat) : Prop := ∀ t ∈ toks, ¬ (t.b < j ∧ j < t.e)
+
+/-- what inserting `k` characters at `j` does to a span that `j` is not inside of -/
+def moveAfter (j k : Nat) (t : Token) : Token := if t.e ≤ j then t else shiftTok k t
+
+theorem moveAfter_shift (j k a : Nat) (t : Token) :
+    shiftTok a (moveAfter j k t) = moveAfter (j + a) k (shiftTok a t) := by
+  unfold moveAfter
+  by_cases h : t.e ≤ j
+  · have : (shiftTok a t).e ≤ j + a := by simp [shiftTok]; omega
+    rw [if_pos h, if_pos this]
+  · have : ¬ (shiftTok a t).e ≤ j + a := by simp [shiftTok]; omega
+    rw [if_neg h, if_neg this, shiftTok_add, shiftTok_add, Nat.add_comm]
+
+theorem covers_pos {s : List Char} : ∀ {p : Nat} {toks : List Token}, Covers s p toks →
+    ∀ t ∈ toks, t.b < t.e ∧ p ≤ t.b
+  | _, [], _ => by simp
+  | p, t :: ts, h => by
+    obtain ⟨h1, h2, h3, _, h5⟩ := h
+    intro u hu
+    simp at hu
+    rcases hu with rfl | hu
+    · exact ⟨h2, h1⟩
+    · have := covers_pos h5 u hu
+      exact ⟨this.1, by omega⟩
+
+theorem tokenise_nil : tokenise [] = .ok [] := by rfl
+
+theorem tokenise_all_space (ws : List Char) (h : ∀ c ∈ ws, isSpace c = true) : tokenise ws = .ok [] := by
+  have := tokenise_ws ws [] h
+  rw [List.append_nil, tokenise_nil] at this
+  rw [this]; rfl
+
+theorem ins_space_prefix {sp ws : List Char} (r : List Char) {j : Nat} (h : j ≤ sp.length) :
+    ins j ws (sp ++ r) = (sp.take j ++ ws ++ sp.drop j) ++ r := by
+  unfold ins
+  rw [List.take_append_of_le_length h, List.drop_append_of_le_length h]
+  simp
+
+theorem drop_two_dots {r : List Char} {k : Nat} (h1 : r[k]? = some '.') (h2 : r[k + 1]? = some '.') :
+    ∃ rest, r.drop k = '.' :: '.' :: rest := by
+  have hk : k + 1 < r.length := getElem?_some_lt h2
+  refine ⟨r.drop (k + 2), ?_⟩
+  rw [List.drop_eq_getElem_cons (i := k) (by omega), List.drop_eq_getElem_cons (i := k + 1) hk]
+  have e1 : r[k] = '.' := by
+    have := List.getElem?_eq_getElem (l := r) (i := k) (by omega); rw [this] at h1; simpa using h1
+  have e2 : r[k + 1] = '.' := by
+    have := List.getElem?_eq_getElem (l := r) (i := k + 1) hk; rw [this] at h2; simpa using h2
+  rw [e1, e2]
+
+theorem tokenise_ins_aux (ws : List Char) (hws : ∀ c ∈ ws, isSpace c = true) (hne : ws ≠ []) :
+    ∀ (n : Nat) (s : List Char), s.length ≤ n → ∀ (j : Nat) (toks : List Token),
+      tokenise s = .ok toks → NotInside toks j →
+      tokenise (ins j ws s) = .ok (toks.map (moveAfter j ws.length)) := by
+  intro n
+  induction n with
+  | zero =>
+    intro s hs j toks h _
+    have : s = [] := by cases s; rfl; simp at hs
+    subst this
+    rw [tokenise_nil] at h
+    simp only [Except.ok.injEq] at h
+    subst h
+    rw [ins_of_nil, tokenise_all_space ws hws]; rfl
+  | succ n ih =>
+    intro s hs j toks h hni
+    -- split off the leading whitespace
+    have hsplit := (List.takeWhile_append_dropWhile (p := isSpace) (l := s)).symm
+    generalize hspd : s.takeWhile isSpace = sp at hsplit
+    generalize hrd : s.dropWhile isSpace = r at hsplit
+    have hsp : ∀ c ∈ sp, isSpace c = true := by rw [← hspd]; exact tw_all isSpace s
+    have hr : NoStart isSpace r := by rw [← hrd]; exact dw_noStart isSpace s
+    have hlen : s.length = sp.length + r.length := by rw [hsplit]; simp
+    rw [hsplit, tokenise_ws sp r hsp] at h
+    cases htr : tokenise r with
+    | error e => rw [htr] at h; simp [shiftToks] at h
+    | ok tr =>
+      rw [htr] at h
+      simp only [shiftToks, Except.ok.injEq] at h
+      subst h
+      have hpos := covers_pos (tokenise_covers htr)
+      by_cases hj : j ≤ sp.length
+      · -- insertion inside (or at the ends of) the leading whitespace
+        rw [hsplit, ins_space_prefix r hj]
+        have hall : ∀ c ∈ sp.take j ++ ws ++ sp.drop j, isSpace c = true := by
+          intro c hc
+          simp only [List.mem_append] at hc
+          rcases hc with (hc | hc) | hc
+          · exact hsp c (List.mem_of_mem_take hc)
+          · exact hws c hc
+          · exact hsp c (List.mem_of_mem_drop hc)
+        rw [tokenise_ws _ r hall, htr]
+        simp only [shiftToks, Except.ok.injEq, List.map_map]
+        apply List.map_congr_left
+        intro t0 ht0
+        have := (hpos t0 ht0).1
+        simp only [Function.comp, moveAfter]
+        rw [if_neg (by simp [shiftTok]; omega), shiftTok_add]
+        congr 1
+        simp
+        omega
+      · -- insertion after the first token
+        have hj' : sp.length < j := by omega
+        rw [hsplit, ins_append_ge r ws (by omega), tokenise_ws sp _ hsp]
+        cases r with
+        | nil =>
+          rw [tokenise_nil] at htr
+          simp only [Except.ok.injEq] at htr
+          subst htr
+          rw [ins_of_nil, tokenise_all_space ws hws]; rfl
+        | cons c r1 =>
+          have hlf : tokenise (c :: r1) = lexFrom (c :: r1) := by
+            rw [tokenise_lexFrom, skipWs_zero_of_noStart hr, shiftToks_zero, List.drop_zero]
+          have htr0 := htr
+          rw [hlf, lexFrom_step, if_pos (by simp)] at htr
+          cases hrt : readToken 0 (c :: r1) with
+          | error e => rw [hrt] at htr; simp at htr
+          | ok o =>
+            cases o with
+            | none => rw [hrt] at htr; simp at htr
+            | some t0 =>
+              clear htr
+              have ⟨hb0, hlt0, hle0⟩ := readToken_span hrt
+              have htl : (List.take t0.e (c :: r1)).length = t0.e := by rw [List.length_take]; omega
+              have htd : List.take t0.e (c :: r1) ++ List.drop t0.e (c :: r1) = c :: r1 := List.take_append_drop _ _
+              have htok := tokenise_tok (l := List.take t0.e (c :: r1)) (rest := List.drop t0.e (c :: r1))
+                (t := t0) (by rw [htd]; exact hrt) htl.symm
+              rw [htd, htl] at htok
+              have htr2 : tokenise (c :: r1) = .ok tr := htr0
+              rw [htok] at htr2
+              cases hts : tokenise (List.drop t0.e (c :: r1)) with
+              | error e => rw [hts] at htr2; simp [shiftToks] at htr2
+              | ok ts0 =>
+                rw [hts] at htr2
+                simp only [shiftToks, Except.ok.injEq] at htr2
+                subst htr2
+                -- the insertion point is at or after the end of the first token
+                have hge : t0.e ≤ j - sp.length := by
+                  have := hni (shiftTok sp.length t0) (by simp)
+                  simp only [shiftTok] at this
+                  omega
+                -- it is not between the two points of `d..`
+                have hrange : j - sp.length = t0.e + 1 →
+                    ¬ ((c :: r1)[t0.e]? = some '.' ∧ (c :: r1)[t0.e + 1]? = some '.') := by
+                  intro hje ⟨hd1, hd2⟩
+                  obtain ⟨rest', hrest'⟩ := drop_two_dots hd1 hd2
+                  have hdd := tokenise_tok (l := ['.', '.']) (rest := rest') (readToken_dotdot rest') rfl
+                  rw [show ['.', '.'] ++ rest' = '.' :: '.' :: rest' from rfl, ← hrest', hts] at hdd
+                  cases hts' : tokenise rest' with
+                  | error e => rw [hts'] at hdd; simp [shiftToks] at hdd
+                  | ok ts' =>
+                    rw [hts'] at hdd
+                    simp only [shiftToks, Except.ok.injEq] at hdd
+                    have := hni (shiftTok sp.length (shiftTok t0.e ⟨.const "..", 0, 2, .none⟩)) (by
+                      rw [hdd]; simp)
+                    simp only [shiftTok] at this
+                    omega
+                have hloc := readToken_ins hws hne hrt hge hrange
+                have hins2 : ins (j - sp.length) ws (c :: r1) =
+                    List.take t0.e (c :: r1) ++ ins (j - sp.length - t0.e) ws (List.drop t0.e (c :: r1)) := by
+                  conv => lhs; rw [← htd]
+                  rw [ins_append_ge _ ws (by rw [htl]; exact hge), htl]
+                have htok2 := tokenise_tok (l := List.take t0.e (c :: r1))
+                  (rest := ins (j - sp.length - t0.e) ws (List.drop t0.e (c :: r1))) (t := t0)
+                  (by rw [← hins2]; exact hloc) htl.symm
+                rw [← hins2, htl] at htok2
+                have hni0 : NotInside ts0 (j - sp.length - t0.e) := by
+                  intro u hu
+                  have := hni (shiftTok sp.length (shiftTok t0.e u)) (by simp; right; exact ⟨u, hu, rfl⟩)
+                  simp only [shiftTok] at this
+                  omega
+                have hih := ih (List.drop t0.e (c :: r1)) (by simp at hs hlen ⊢; omega) (j - sp.length - t0.e) ts0
+                  hts hni0
+                rw [htok2, hih]
+                simp only [shiftToks, List.map_cons, List.map_map, Except.ok.injEq]
+                congr 1
+                · simp only [moveAfter]
+                  rw [if_pos (by simp [shiftTok]; omega)]
+                · apply List.map_congr_left
+                  intro u _
+                  simp only [Function.comp]
+                  rw [moveAfter_shift, moveAfter_shift]
+                  congr 1
+                  omega
+
+/-- **whitespace insertion.**  If `s` lexes to `toks` and position `j` is not strictly inside a token, then `s`
+    with the whitespace `ws` inserted at `j` lexes to the same tokens, those after `j` moved by the length of `ws`. -/
+theorem tokenise_ins (s ws : List Char) (j : Nat) (toks : List Token) (hws : ∀ c ∈ ws, isSpace c = true)
+    (h : tokenise s = .ok toks) (hni : NotInside toks j) :
+    tokenise (ins j ws s) = .ok (toks.map (moveAfter j ws.length)) := by
+  cases ws with
+  | nil =>
+    rw [ins_nil, h]
+    congr 1
+    have : ∀ t : Token, moveAfter j ([] : List Char).length t = t := by
+      intro t; unfold moveAfter; split; rfl; exact shiftTok_zero t
+    rw [List.map_congr_left (g := id) (fun t _ => this t)]; simp
+  | cons w ws' => exact tokenise_ins_aux (w :: ws') hws (by simp) s.length s (Nat.le_refl _) j toks h hni
+
 end KaVerif.Lexer
